@@ -1880,6 +1880,10 @@ type abs_result = { r_objs : (n * aobj) list; r_errs : wf_error list;
 
 val in_data : layout -> n -> bool
 
+val dup_errors : n list -> n gset -> wf_error list
+
+val own_errors : layout -> n list -> n list -> wf_error list
+
 val abs_disk : n -> n -> n -> bool -> disk -> abs_result
 
 val empty_disk : disk
